@@ -11,8 +11,18 @@ import core
 import geom
 
 
+FINE = 2.0 ** -10       # radians per heading unit of the densely sampled family (a few milliradians per frame)
+
+
 def poses_of(c, u):
     xs = np.concatenate(([0.0], np.cumsum(np.array(c["steps"], dtype=float)))) * u
+    if c.get("fine"):
+        out = []
+        for x, h in zip(xs, c["heads"]):
+            a = h * FINE
+            m = np.array([[math.cos(a), -math.sin(a), 0.0], [math.sin(a), math.cos(a), 0.0], [0.0, 0.0, 1.0]])
+            out.append(geom.se3(m, [x, 0.0, 0.0]))
+        return out
     return [geom.se3(geom.heading_matrix(2, h % 360), [x, 0.0, 0.0]) for x, h in zip(xs, c["heads"])]
 
 
@@ -24,6 +34,8 @@ def execute(job):
     unit = {"frames": metrics.Unit.frames, "meters": metrics.Unit.meters, "degrees": metrics.Unit.degrees,
             "radians": metrics.Unit.radians}[q["unit"]]
     delta = {"frames": q["d"], "meters": q["d"] * u, "degrees": float(q["d"]), "radians": math.radians(q["d"])}[q["unit"]]
+    if c.get("fine") and q["unit"] in ("degrees", "radians"):
+        delta = math.degrees(q["d"] * FINE) if q["unit"] == "degrees" else q["d"] * FINE
     try:
         with contextlib.redirect_stdout(io.StringIO()):
             prs = metrics.id_pairs_from_delta(poses, delta, unit, q["tn"] / q["td"], q["all"])
@@ -77,6 +89,16 @@ def run(rep, tier, seed):
         tol = rng.choice([[0, 1], [1, 4], [1, 2], [1, 1]]) if allp else [0, 1]
         d = rng.randint(1, 8) if unit in ("frames", "meters") else rng.choice([10, 30, 45, 75, 90, 135, 180])
         cases.append({"c": c, "q": {"unit": unit, "d": d, "all": allp, "tn": tol[0], "td": tol[1]}})
+    # densely sampled rotation: a few milliradians per frame (heading unit 2^-10 rad, even headings, odd deltas: no threshold is hit exactly)
+    for k in range(60 if tier == "quick" else 600):
+        n = rng.randint(8, 40)
+        heads = [0]
+        for _ in range(n - 1):
+            heads.append(min(178, heads[-1] + rng.choice([0, 2, 2, 4, 4, 6])))
+        c = {"steps": [1] * (n - 1), "heads": heads, "fine": True}
+        allp = rng.random() < 0.4
+        tol = rng.choice([[0, 1], [1, 4], [1, 2]]) if allp else [0, 1]
+        cases.append({"c": c, "q": {"unit": rng.choice(["degrees", "radians"]), "d": rng.choice([3, 5, 9, 15, 31]), "all": allp, "tn": tol[0], "td": tol[1]}})
     import evo.core.metrics  # noqa: F401
     obs = core.pmap(execute, [(n, x["c"], x["q"], seed) for n, x in enumerate(cases)], chunksize=200)
     traces = []
